@@ -130,33 +130,43 @@ Theorem C01_like_literal : forall p s, no_wildcard p -> (wildcard_match p s = tr
 Proof. exact wildcard_match_literal. Qed.
 Print Assumptions C01_like_literal.
 
-(* x IN (subquery) over rows that are single-column objects (any column names) is membership of x's
-   value in the column: equality of same-kind scalars ...
-   (The property claims IN only.  The model gives NOT IN (subquery) the complementary value, see
-   [in_subquery] in Proofs/C01Lemmas.v, but the Go code does not: its NOT IN branch has no case for
-   subquery rows and keeps every row - reported in integration/C01-proofs.md, not claimed here.) *)
-Theorem C01_in_subquery : forall Q (E : env Q) (r : row) (a : expr Q) q k x
+(* x [NOT] IN (subquery) over rows that are single-column objects (any column names) is
+   [non-]membership of x's value in the column: equality of same-kind scalars ... *)
+Theorem C01_in_subquery : forall Q (E : env Q) (r : row) neg (a : expr Q) q k x
                                  (cols : list (string * value)),
   e_hard E = false ->
   operand r a = Some x -> kind_of x = Some k ->
   e_sub E q (scope r (e_data E)) = Ok (VArr (map (fun cv => VObj [cv]) cols)) ->
   Forall (fun cv => kind_of (snd cv) = Some k) cols ->
-  eval E r (EInSub false a q)
-  = Ok (RVal (VBool (existsb (fun cv => cmp_sem OpEq x (snd cv)) cols))).
-Proof. intros Q E r a q k x cols Hh. apply (in_subquery E Hh r false). Qed.
+  eval E r (EInSub neg a q)
+  = Ok (RVal (VBool (negate_if neg (existsb (fun cv => cmp_sem OpEq x (snd cv)) cols)))).
+Proof. intros Q E r neg a q k x cols Hh. apply in_subquery. exact Hh. Qed.
 Print Assumptions C01_in_subquery.
 
 (* ... and in general membership by [vcompare _ _ = 0], whenever those comparisons are defined *)
-Theorem C01_in_subquery_vcompare : forall Q (E : env Q) (r : row) (a : expr Q) q x
+Theorem C01_in_subquery_vcompare : forall Q (E : env Q) (r : row) neg (a : expr Q) q x
                                           (cols : list (string * value)),
   e_hard E = false ->
   operand r a = Some x ->
   e_sub E q (scope r (e_data E)) = Ok (VArr (map (fun cv => VObj [cv]) cols)) ->
   (forall cv, In cv cols -> exists z, vcompare x (snd cv) = Ok z) ->
-  eval E r (EInSub false a q)
-  = Ok (RVal (VBool (existsb (fun cv => vmember x (snd cv)) cols))).
-Proof. intros Q E r a q x cols Hh. apply (in_subquery_vcompare E Hh r false). Qed.
+  eval E r (EInSub neg a q)
+  = Ok (RVal (VBool (negate_if neg (existsb (fun cv => vmember x (snd cv)) cols)))).
+Proof. intros Q E r neg a q x cols Hh. apply in_subquery_vcompare. exact Hh. Qed.
 Print Assumptions C01_in_subquery_vcompare.
+
+(* NOT IN (subquery) is the complement of IN (subquery) *)
+Theorem C01_not_in_subquery_complement : forall Q (E : env Q) (r : row) (a : expr Q) q k x
+                                                (cols : list (string * value)),
+  e_hard E = false ->
+  operand r a = Some x -> kind_of x = Some k ->
+  e_sub E q (scope r (e_data E)) = Ok (VArr (map (fun cv => VObj [cv]) cols)) ->
+  Forall (fun cv => kind_of (snd cv) = Some k) cols ->
+  exists b,
+    eval E r (EInSub false a q) = Ok (RVal (VBool b)) /\
+    eval E r (EInSub true a q) = Ok (RVal (VBool (negb b))).
+Proof. intros Q E r a q k x cols Hh. apply not_in_subquery_complement. exact Hh. Qed.
+Print Assumptions C01_not_in_subquery_complement.
 
 (* what the numeric comparisons mean in terms of the IEEE primitives (definitional, no law) *)
 Theorem C01_num_cmp_reading : forall a b,
